@@ -869,7 +869,34 @@ func runC16(c hx.Case) any {
 	}
 	obs["pirefs"] = pirefs
 	obs["comps"] = c16CompNames(doc)
+	// the reuse dimension: a SECOND call of InternalizeRefs on the same object (made only after everything the first
+	// call is judged by has been read or serialised): final $ref texts, path item refs and component names after it
+	c16second := func() {
+		var pan2 any
+		func() {
+			defer func() {
+				if r := recover(); r != nil {
+					pan2 = fmt.Sprint(r)
+				}
+			}()
+			doc.InternalizeRefs(ctx, nil)
+		}()
+		if pan2 != nil {
+			obs["ipanic2"] = true
+			obs["panicmsg2"] = pan2
+			return
+		}
+		obs["ipanic2"] = false
+		obs["refs2"] = c16ReadRefs(x)
+		pirefs2 := make([]string, len(x.piPtr))
+		for i, p := range x.piPtr {
+			pirefs2[i] = p.Ref
+		}
+		obs["pirefs2"] = pirefs2
+		obs["comps2"] = c16CompNames(doc)
+	}
 	if c16Cyclic(x) {
+		c16second()
 		// a path item written out in full that is reached again through callbacks written out in full: the document is
 		// an infinite tree; MarshalJSON would overflow the stack (fatal, not recoverable)
 		obs["kind"] = "cyclic"
@@ -886,6 +913,7 @@ func runC16(c hx.Case) any {
 		}()
 		data, err = doc.MarshalJSON()
 	}()
+	c16second()
 	if err != nil {
 		obs["kind"] = "nomarshal"
 		obs["marshal_ok"] = false
@@ -2043,6 +2071,29 @@ func cmpC16(c hx.Case, impl any, reply map[string]any) hx.Verdict {
 			}
 			if jbool(model, "cyclic") != jbool(im, "cyclic") {
 				md = append(md, fmt.Sprintf("infinite tree: model %v, implementation %v", jbool(model, "cyclic"), jbool(im, "cyclic")))
+			}
+			// second call (theorem second_call_changes_nothing: where the first call left only internal texts, a further call
+			// adds nothing and renames nothing); compared with the model's second run where that hypothesis holds
+			if jbool(model, "allint") || os.Getenv("VERIF_C16_SECOND_ALWAYS") != "" {
+				if jbool(im, "ipanic2") {
+					md = append(md, "second call of InternalizeRefs panicked: "+fmt.Sprint(im["panicmsg2"]))
+				} else if jstr(model, "outcome2") != "done" {
+					md = append(md, "second call: impl returned, model "+jstr(model, "outcome2"))
+				} else {
+					if !sameStrs(toStrs(im["refs2"]), toStrs(model["refs2"]), true) {
+						md = append(md, fmt.Sprintf("second call, final $ref texts: impl %v model %v", im["refs2"], model["refs2"]))
+					}
+					if !sameStrs(toStrs(im["pirefs2"]), toStrs(model["pirefs2"]), true) {
+						md = append(md, fmt.Sprintf("second call, path item refs: impl %v model %v", im["pirefs2"], model["pirefs2"]))
+					}
+					ic2, _ := im["comps2"].(map[string]any)
+					mc2, _ := model["comps2"].(map[string]any)
+					for _, k := range c16Kinds {
+						if !sameStrs(toStrs(ic2[k]), toStrs(mc2[k]), false) {
+							md = append(md, fmt.Sprintf("second call, components.%s: impl %v model %v", k, ic2[k], mc2[k]))
+						}
+					}
+				}
 			}
 		}
 	}
